@@ -202,7 +202,7 @@ def loaded_edit_scripts(ctx):
     return out
 
 def c06(ctx): return check_api_property(ctx, oracles.c06, 160, 4000, extra=column_scripts)
-def c07(ctx): return check_api_property(ctx, oracles.c07, 200, 5000, malformed=0.45, extra=column_scripts)
+def c07(ctx): return check_api_property(ctx, oracles.c07, 200, 5000, malformed=0.45, extra=lambda c: column_scripts(c) + own_points_scripts(c))
 def with_sep(scripts):
     """after every call that hands data to the object, observe the separation invariant of Model/Heap.lean on the real heap"""
     out = []
@@ -248,7 +248,49 @@ def loaded_column_scripts(ctx):
     return out
 
 def c08(ctx): return check_api_property(ctx, oracles.c08, 160, 3000, caller_mut=0.6, post=with_sep, extra=loaded_column_scripts)
-def c10(ctx): return check_api_property(ctx, oracles.c10, 200, 5000, malformed=0.5, extra=lambda c: column_scripts(c) + pset_scripts(c))
+def own_points_scripts(ctx):
+    """C10 / C07: the FIRST frame of an object on which no point was declared by name brings its own points (allowed: the frame
+    then defines them) while something else about it is wrong or right: a channel too few / too many, a missing rate, a
+    sub-frame too many; refused calls must leave no trace, matching ones must be accepted"""
+    out = []
+    X = gen.xhex; F = gen.f2h
+    k = 0
+    for nch in (1, 2, 3):
+        for dch in (-1, 0, 1):
+            for rates in ("both", "nopoint", "noanalog"):
+                for npts in (1, 3):
+                    g = gen.G(ctx.seed * 17 + k); k += 1
+                    L = ["new"] + ["analog %s" % X(b"C%d" % i) for i in range(nch)]
+                    if rates != "nopoint": L.append("param x504f494e54 x52415445 x 0 F - %s" % F(100.0))
+                    if rates != "noanalog": L.append("param x414e414c4f47 x52415445 x 0 F - %s" % F(200.0))
+                    nsub = 2 if rates == "both" else 1
+                    pts = ";".join(gen.point_str(g, b"OWN%d" % i) for i in range(npts))
+                    sub = ";".join("%s:%s" % (X(b"C%d" % i), g.fbits()) for i in range(nch + dch)) or "e"
+                    L.append("mkframe v %s %s" % (pts, "|".join([sub] * nsub)))
+                    L += ["frame v", "dump", "frame v", "point %s" % X(b"LATER"), "dump"]
+                    out.append((L, {"own_points": 1}, "own-points-%d" % k))
+    return out
+
+def limit_column_scripts(ctx):
+    """C10 at the format's capacity: a data set that already stores frames with 255 points (channels) gets a 256th column -
+    whatever the call does (the unchanged library accepts it: a recorded C17 finding), a refusal must leave no trace in the frames"""
+    X = gen.xhex; F = gen.f2h
+    out = []
+    for kind in ("points", "channels"):
+        g = gen.G(ctx.seed * 29 + len(out))
+        L = ["new", "dumpmode shape"]
+        if kind == "points":
+            L += ["point %s" % X(b"P%03d" % i) for i in range(255)] + ["param x504f494e54 x52415445 x 0 F - %s" % F(100.0)]
+            L.append("mkframe v %s -" % ";".join(gen.point_str(g, b"P%03d" % i) for i in range(255)))
+            L += ["frame v", "frame v", "dumpmode full", "dump", "point %s" % X(b"P255"), "dump", "point %s" % X(b"P256"), "dump"]
+        else:
+            L += ["analog %s" % X(b"C%03d" % i) for i in range(255)] + ["param x504f494e54 x52415445 x 0 F - %s" % F(100.0), "param x414e414c4f47 x52415445 x 0 F - %s" % F(100.0)]
+            L.append("mkframe v - %s" % ";".join("%s:%s" % (X(b"C%03d" % i), g.fbits()) for i in range(255)))
+            L += ["frame v", "frame v", "dumpmode full", "dump", "analog %s" % X(b"C255"), "dump", "analog %s" % X(b"C256"), "dump"]
+        out.append((L, {"limit_column": 1}, "limit-column-" + kind))
+    return out
+
+def c10(ctx): return check_api_property(ctx, oracles.c10, 200, 5000, malformed=0.5, extra=lambda c: column_scripts(c) + pset_scripts(c) + own_points_scripts(c) + limit_column_scripts(c))
 def c05(ctx): return check_api_property(ctx, oracles.c05, 200, 5000, with_io=True, extra=lambda c: ratio_scripts(c) + column_scripts(c) + loaded_edit_scripts(c))
 
 def pset_scripts(ctx):
